@@ -104,7 +104,7 @@ def solve_all(prop, target, fv, obs, repo, tier, timeout_ms, cross, budget_s=Non
 
     z3.set_param("memory_max_size", 12000)
     if budget_s is None:
-        budget_s = 90 if tier == "quick" else 900
+        budget_s = 60 if tier == "quick" else 900
     t_start = time.time()
     recs = {}
     hard = []
@@ -186,7 +186,7 @@ def verify_worker(job):
                 fv2 = verify.FnVerifier(c2, repo, tier=tier)
                 out.setdefault("sha", fv2.sha)
                 obs2 = [o for o in fv2.generate() if o.kind in CONTRACT_KINDS]
-                fb["obligations"] = solve_all(prop, target, fv2, obs2, repo, tier, timeout_ms, False)
+                fb["obligations"] = solve_all(prop, target, fv2, obs2, repo, tier, timeout_ms, False, budget_s=40 if tier == "quick" else 600)
             except EngineError as e:
                 fb["undecided"] = "%s: %s" % (type(e).__name__, e)
             except Exception as e:  # noqa  (solver resource errors in the stand-in are not verdicts)
@@ -405,7 +405,7 @@ def check(prop, tier, repo, seed, jobs):
             if not r.get("failures"):
                 n_dis += r.get("obligations", 1)
                 by_backend["enum(native, exhaustive)"] = by_backend.get("enum(native, exhaustive)", 0) + r.get("obligations", 1)
-        for fl in r.get("failures", [])[:20]:
+        for fl in r.get("failures", [])[:3]:
             rp = os.path.join(HERE, "replays", "%s-%s.json" % (prop, hashlib.sha1((r["name"] + json.dumps(fl, sort_keys=True, default=str)).encode()).hexdigest()[:12]))
             doc = {"property": prop, "native_check": r["name"], "target": fl.get("target"), "obligation": "%s/%s/%s" % (prop, r["name"], fl.get("clause", "")),
                    "inputs": fl.get("inputs"), "observed": fl.get("observed"), "clause": fl.get("clause"), "confirmed": True,
